@@ -36,6 +36,7 @@ func (f *File) Render(w io.Writer) error {
 	if err := f.render(f, body, nil); err != nil {
 		return err
 	}
+	verifHook("rendered", f, "")
 	source := &bytes.Buffer{}
 	if len(f.headers) > 0 {
 		for _, c := range f.headers {
